@@ -69,6 +69,8 @@ pub struct Builder<'a> {
     pub nsites: u32,
     pub clients: Vec<Box<dyn FnOnce() + Send>>,
     pub tmpdir: std::path::PathBuf,
+    /// state handles (and loop paths) of the enclosing loops whose bodies read their state
+    pub state_stack: Vec<(IterationStateHandle<LoopState>, Vec<usize>)>,
 }
 
 /// stamps every data element with the iteration index of this replica (number of
@@ -119,6 +121,9 @@ pub struct StateReader<O> {
     state: IterationStateHandle<LoopState>,
     loop_id: u32,
     loop_path: Vec<usize>,
+    /// set when this reader sits in the body of a loop nested inside `loop_path`'s loop: its round
+    /// counter then counts the rounds of that inner loop (over all outer rounds)
+    inner_path: Option<Vec<usize>>,
     site: u32,
     coord: CoordT,
     fold_in: bool,
@@ -148,6 +153,7 @@ impl<O: Operator<Out = E>> Operator for StateReader<O> {
                 let obs = StateObs {
                     loop_id: self.loop_id,
                     loop_path: self.loop_path.clone(),
+                    inner_path: self.inner_path.clone(),
                     coord: self.coord,
                     true_round: self.round,
                     seen_round: st.0,
@@ -235,6 +241,7 @@ impl<'a> Builder<'a> {
             nsites: 0,
             clients: vec![],
             tmpdir,
+            state_stack: vec![],
         }
     }
 
@@ -527,12 +534,12 @@ impl<'a> Builder<'a> {
                     .map(|(k, v)| agg_e(k, (v * 1024.0).round() as i64, 0)),
             ),
             GbForm::MinEl => boxed(
-                s.group_by_min_element(|e| e.key, |e| (e.v, e.id))
+                s.group_by_min_element(|e| e.key, |e| (e.v, e.id, e.ts))
                     .unkey()
                     .map(|(k, e)| E { key: k, ..e }),
             ),
             GbForm::MaxEl => boxed(
-                s.group_by_max_element(|e| e.key, |e| (e.v, e.id))
+                s.group_by_max_element(|e| e.key, |e| (e.v, e.id, e.ts))
                     .unkey()
                     .map(|(k, e)| E { key: k, ..e }),
             ),
@@ -759,6 +766,27 @@ impl<'a> Builder<'a> {
             let outer: &mut Vec<Option<DS<E>>> = unsafe { &mut *(outer_ptr as *mut Vec<Option<DS<E>>>) };
 
             let bs = me.probe(bs, &path2, 0, "loophead");
+            // a loop nested in a body that reads its loop state: read that *outer* state from
+            // inside this inner body too (closures may capture the outer handle)
+            let bs = match me.state_stack.last().cloned() {
+                Some((outer_state, outer_path)) => {
+                    let site = me.nsites;
+                    me.nsites += 1;
+                    let inner_path = Some(path2.clone());
+                    boxed(bs.add_operator(|p| StateReader {
+                        prev: p,
+                        state: outer_state,
+                        loop_id,
+                        loop_path: outer_path,
+                        inner_path,
+                        site,
+                        coord: (0, 0, 0),
+                        fold_in: false,
+                        round: 0,
+                    }))
+                }
+                None => bs,
+            };
             let mut local: Vec<Option<DS<E>>> = vec![Some(bs)];
             // state readers are inserted after every body step when requested
             me.build_body(&spec2, &mut local, outer, &path2, loop_id, state);
@@ -800,6 +828,10 @@ impl<'a> Builder<'a> {
         loop_id: u32,
         state: IterationStateHandle<LoopState>,
     ) {
+        if spec.use_state {
+            self.state_stack.push((state.clone(), path.to_vec()));
+        }
+        let pushed = spec.use_state;
         for (si, st) in spec.body.iter().enumerate() {
             let mut p = path.to_vec();
             p.push(si);
@@ -819,6 +851,7 @@ impl<'a> Builder<'a> {
                             state,
                             loop_id,
                             loop_path,
+                            inner_path: None,
                             site,
                             coord: (0, 0, 0),
                             fold_in: true,
@@ -827,6 +860,9 @@ impl<'a> Builder<'a> {
                     }
                 }
             }
+        }
+        if pushed {
+            self.state_stack.pop();
         }
     }
 
